@@ -61,4 +61,41 @@ def exPlainStore : Store :=
       else .null
     idx := fun _ _ => [] }
 
+/-- a program with map calls of a stage over array literals (elements: constants, a pipeline
+input, upstream outputs, struct literals next to references that are narrowed), consumed
+whole, projected and narrowed -/
+def exMap : Program :=
+  { structs := [("PAIR", [⟨"a", xInt⟩, ⟨"b", xStr⟩]),
+                ("WIDE", [⟨"a", xInt⟩, ⟨"b", xStr⟩, ⟨"c", ⟨"float", 0, 0⟩⟩])]
+    callables :=
+      [ ("GEN", .stage [⟨"n", xInt⟩] [⟨"w", xWide⟩, ⟨"x", xInt⟩]),
+        ("WORK", .stage [⟨"x", xInt⟩, ⟨"p", xPair⟩, ⟨"k", xInt⟩] [⟨"y", xInt⟩, ⟨"q", xWide⟩]),
+        ("USE", .stage [⟨"ys", ⟨"int", 0, 1⟩⟩, ⟨"qs", ⟨"PAIR", 0, 1⟩⟩, ⟨"qa", ⟨"int", 0, 1⟩⟩] [⟨"r", xInt⟩]),
+        ("TOP", .pipeline [⟨"v", xInt⟩] [⟨"ys", ⟨"int", 0, 1⟩⟩, ⟨"r", xInt⟩]
+          [ { id := "GEN", callee := "GEN", mapped := false, disabled := none,
+              binds := [⟨"n", false, .self "v" []⟩] },
+            { id := "W", callee := "WORK", mapped := true, disabled := none,
+              binds := [⟨"x", true, .arr [.lit (.atom "1"), .self "v" [], .ref "GEN" ["x"]]⟩,
+                        ⟨"p", true, .arr [.ref "GEN" ["w"],
+                                          .struct [("a", .lit (.atom "1")), ("b", .lit (.atom "\"s\""))],
+                                          .ref "GEN" ["w"]]⟩,
+                        ⟨"k", false, .ref "GEN" ["x"]⟩] },
+            { id := "USE", callee := "USE", mapped := false, disabled := none,
+              binds := [⟨"ys", false, .ref "W" ["y"]⟩, ⟨"qs", false, .ref "W" ["q"]⟩,
+                        ⟨"qa", false, .ref "W" ["q", "a"]⟩] } ]
+          [("ys", .ref "W" ["y"]), ("r", .ref "USE" ["r"])]) ]
+    top := { id := "TOP", callee := "TOP", mapped := false, disabled := none,
+             binds := [⟨"v", false, .lit (.atom "5")⟩] } }
+
+def exMapOracle : Oracle := fun k =>
+  if k.path == ["TOP", "GEN"] then some (.obj [("w", exWide "1"), ("x", .atom "3")])
+  else if k.path == ["TOP", "W"] then
+    match k.forks with
+    | [("W", .i n)] => some (.obj [("y", .atom (toString (10 + n))), ("q", exWide (toString (20 + n)))])
+    | _ => none
+  else if k.path == ["TOP", "USE"] then some (.obj [("r", .atom "99")])
+  else none
+
+def exMapStore : Store := storeOfNodes exNm (staticProgram exMap exNm).2 exMapOracle
+
 end Proofs.ResolverStatic
